@@ -189,6 +189,13 @@ class World:
         return self.cache().indexes[self.pk_attrs].get(self.pkt(pk))
 
     # ---- setup
+    def populate_setup(self):
+        """rows a directed history wants committed before its session (part of the spec, so that replays have them too)"""
+        rows = self.spec.get('setup_rows')
+        if rows:
+            with db_session:
+                for kw in rows: self.E0(**kw)
+
     def populate_parents(self, with_q=False):
         if with_q and self.Q is not None:
             with db_session:
@@ -370,7 +377,10 @@ class World:
         loads = self.infer_loads(st)
         res = {'err': err, 'yields': None, 'mops': loads + [{'k': 'delete', 'o': op['o']}]}
         if loads: res['inferred'] = True
-        if err is not None:
+        if err == 'TransactionIntegrityError' and loads:
+            # the row load INSIDE delete (an object known by primary key only) was refused: the model's `load` predicts it
+            res['end'] = True
+        elif err is not None:
             # delete reads the rows of R that reference the object; a typed reference (R.f -> E1) naming an object of the base
             # class with read/write bits makes THAT fail (class refinement): relationship code, outside this model
             res['outside_model'] = True; res['end'] = True
@@ -786,6 +796,7 @@ def run_history(spec, pop_seed, ops=None, rng=None, nops=0, ctx=None, dbfile=Non
     returns (world, trace) with trace = [(op, result, snapshot, oracle findings)]"""
     w = World(spec, dbfile=dbfile)
     w.populate_parents(with_q=pop_seed is None)
+    w.populate_setup()
     if pop_seed is not None: w.populate(random.Random(pop_seed))       # None: the history starts on an empty database
     trace = []
     with db_session:
@@ -840,7 +851,8 @@ LOADING_CALLS = ('unpickle', 'get', 'select', 'sql', 'load', 'nav', 'prefetch')
 def classify(op, res, what):
     """canonical id of the root cause where it is recognisable: a row load (`_db_set_`) refused with
     TransactionIntegrityError after it had already moved an index entry (it has no undo list)"""
-    if op['k'] in LOADING_CALLS and res.get('err') == 'TransactionIntegrityError' and what in ('key-index-differs', 'pk-index-differs'):
+    loads = op['k'] in LOADING_CALLS or any(m.get('k') == 'load' for m in res.get('mops') or [])     # also a load inside delete
+    if loads and res.get('err') == 'TransactionIntegrityError' and what in ('key-index-differs', 'pk-index-differs'):
         return 'load-conflict-leaves-half-updated-index'
     return what
 
@@ -1020,6 +1032,10 @@ DIRECTED = [
     ('unpickle-onto-created', _spec(1, [False]),
      [{'k': 'create', 'cls': 0, 'kw': {'id': 1, 'a0': 5}}, {'k': 'flush'}, {'k': 'pickle', 'o': 0}, {'k': 'delete', 'o': 0}, {'k': 'flush'},
       {'k': 'create', 'cls': 0, 'kw': {'id': 1, 'a0': 6}}, {'k': 'unpickle', 'd': 0}, {'k': 'proxy', 'o': 1}]),
+    # delete of an object known by primary key only loads its row with the flush disabled; the row's second unique value is held
+    # by a not-yet-flushed new object: the load is refused (fine) but `_db_set_` has no undo list (known finding, 2nd trigger)
+    ('load-inside-delete-conflict', dict(_spec(2, [True, True], with_p=True), setup_rows=[{'id': 5, 'a0': 3, 'a1': 1}]),
+     [{'k': 'sql', 'attrs': []}, {'k': 'create', 'cls': 0, 'kw': {'id': 3, 'a1': 1}}, {'k': 'delete', 'o': 0}]),
     # a stale pickle whose unique value was taken meanwhile: pickle.loads is refused (fine) but `_db_set_` has no undo list
     ('stale-unpickle-conflict', _spec(2, [True, True]),
      [{'k': 'create', 'cls': 0, 'kw': {'id': 1, 'a0': 3, 'a1': 1}}, {'k': 'flush'}, {'k': 'pickle', 'o': 0}, {'k': 'delete', 'o': 0}, {'k': 'flush'},
